@@ -48,7 +48,7 @@ ASSUMPTIONS = [
     "operands are dyadic rationals of moderate size so that float arithmetic is exact up to the 0.001/0.01 constants",
     "domain = programs the ISO text model gives a meaning to (Spec.run answers some): Figure-9 nesting, no excess "
     "operands, balanced q/Q per stream/form, fonts/forms/colour spaces that exist, colour components in [0,1], "
-    "forms set their own text/colour state in a prologue (pdfminer starts a form with a fresh state)",
+    "forms inherit the caller's graphics state (a page whose Do reaches a form that shows text before any font was selected is outside the domain)",
     "graphicstate.ncolor None is read as 'initial colour'",
 ]
 STATEMENT_STATUS: Dict[str, str] = {
@@ -56,8 +56,8 @@ STATEMENT_STATUS: Dict[str, str] = {
                    "-> Interp.runPage reports exactly gl (induction over programs, any q/Q and form nesting <= fuel)",
     "C05_program_any_budget": "proved: the same at every larger nesting budget",
     "C05_step": "proved: one instruction preserves the simulation relation R and yields the same glyphs",
-    "C05_forms": "proved: Interp.runForm = TextModel.runForm at every budget, for any inherited graphics state "
-                 "(domain: the form sets its own text/colour state in a prologue)",
+    "C05_forms": "proved: Interp.runForm = TextModel.runForm at every budget from related initial states: a form "
+                 "inherits the caller's graphics state (no prologue restriction any more)",
     "C05_split": "proved: streams one after the other = their concatenation (state, operand stack, glyphs)",
     "C05_split_page": "proved",
     "C05_form_frame": "proved: interpreter state of the caller after Do = before, device CTM = caller's CTM",
@@ -285,8 +285,10 @@ class Gen:
         out: List[list] = []
         stack: List[dict] = []
         in_text = False
-        if is_form and not (self.wild and rng.random() < 0.3):
+        if is_form and rng.random() < 0.35:
             out += self.prologue(res, st)
+        elif is_form and rng.random() < 0.6:
+            st["font"] = "?"          # relies on the font / colour / text state the caller hands over
         elif not self.wild or rng.random() < 0.8:
             a = self.args_for("Tf", res, st)
             out.append(["Tf", a])
@@ -713,8 +715,6 @@ class SpecMachine:
             if v[0] not in res["xobjs"]:
                 raise Out("xobject resource")
             fm = self.case["forms"][res["xobjs"][v[0]]]
-            if not has_prologue(fm["prog"]):
-                raise Out("form relies on inherited state")
             g2 = dict(g)                                 # q
             if fm["matrix"] is not None:
                 g2["ctm"] = mmul(tuple(F(x) for x in fm["matrix"]), g2["ctm"])   # Matrix cm
@@ -1178,6 +1178,15 @@ def directed_cases() -> List[dict]:
     c["res"]["xobjs"] = {"X0": 0}
     c["prog"] = json.loads(json.dumps([["Do", [["/", "X0"]]]] + head + [["Tj", [S("A")]], ["ET", []]]))
     c["name"] = "form-then-caller-text"
+    out.append(c)
+    # a form that relies on the font, size, spacing and fill colour it inherits from its caller
+    c = json.loads(json.dumps(base))
+    c["forms"] = [{"matrix": ["1", "0", "0", "1", "30", "40"], "bbox": [0, 0, 100, 100], "res": None,
+                   "prog": json.loads(json.dumps([["BT", []], ["Td", [N(1), N(2)]], ["Tj", [S("xy")]], ["ET", []]]))}]
+    c["res"]["xobjs"] = {"X0": 0}
+    c["prog"] = json.loads(json.dumps([["Tf", [["/", "F1"], N(9)]], ["rg", [N(1), N(0), N(F(1, 2))]], ["Tc", [N(3)]],
+                                       ["Do", [["/", "X0"]]]]))
+    c["name"] = "form-inherits-state"
     out.append(c)
     return out
 
